@@ -3,3 +3,4 @@ pub mod codec;
 pub mod world;
 pub mod migworld;
 pub mod lin;
+pub mod conn;
